@@ -70,7 +70,7 @@ func TestConcurrentProgram(t *testing.T) {
 		t.Fatalf("unexpected output: %s", base)
 	}
 	for _, want := range []string{"timeout-race 1s ready", "timeout-race 5s timeout", "stop true false", "reset-fired-after 2s", "beats 4", "afterfunc [one two]", "elapsed>= true true",
-		"ctx-fast <nil>", "ctx-slow context deadline exceeded", "ctx-cancel context canceled context canceled context canceled", "ctx-done true"} {
+		"ctx-fast <nil>", "ctx-slow context deadline exceeded", "ctx-cancel context canceled context canceled context canceled", "ctx-done true", "cond-total 55"} {
 		if !strings.Contains(base, want) {
 			t.Fatalf("simulated time: %q missing in: %s", want, base)
 		}
@@ -87,7 +87,7 @@ func TestConcurrentProgram(t *testing.T) {
 			t.Fatalf("seed %d: select semantics broken: %s", seed, a)
 		}
 		for _, want := range []string{"timeout-race 1s ready", "timeout-race 5s timeout", "reset-fired-after 2s", "beats 4", "afterfunc [one two]", "elapsed>= true true",
-			"ctx-fast <nil>", "ctx-slow context deadline exceeded", "ctx-cancel context canceled context canceled context canceled", "ctx-done true"} {
+			"ctx-fast <nil>", "ctx-slow context deadline exceeded", "ctx-cancel context canceled context canceled context canceled", "ctx-done true", "cond-total 55"} {
 			if !strings.Contains(a, want) {
 				t.Fatalf("seed %d: simulated time: %q missing in: %s", seed, want, a)
 			}
